@@ -664,9 +664,10 @@ def r_bound(c):
             "a named placeholder does not keep its name through preprocessing")
     for meth, sink in (("map_placeholder", "lp.GlobalArg"), ("map_size_param", "lp.ValueArg")):
         fd = m.func(f"{CGM}.{meth}")
+        # (in the handler or in a private helper that is handed the node)
         ok = any(isinstance(x, ast.Call) and ast.unparse(x.func) == sink
-                 and x.args and ast.unparse(x.args[0]) == fd.args.args[1].arg + ".name"
-                 for x in ast.walk(fd))
+                 and x.args and ast.unparse(x.args[0]) == q + ".name"
+                 for f_, q in m.handed_to(fd, fd.args.args[1].arg) for x in ast.walk(f_))
         c.check(ok, "R15-BOUND", f"CodeGenMapper.{meth}", "argument-named-expr.name",
                 m.loc(LC, fd), f"the kernel argument is not created as {sink}(expr.name, ...)")
 
